@@ -18,7 +18,7 @@
 //! - **NUMA awareness**: Thread-local caches respect NUMA topology
 
 use crate::error::{Result, ZiporaError};
-use crate::memory::{SecureMemoryPool, SecurePoolConfig};
+use crate::memory::{SecureMemoryPool, SecurePoolConfig, SecurePooledPtr};
 use std::alloc::{Layout, alloc, dealloc};
 use std::cell::RefCell;
 use std::collections::HashMap;
@@ -221,7 +221,10 @@ impl ThreadLocalCache {
     }
 
     /// Allocate memory from thread-local cache
-    fn allocate(&mut self, size: usize, config: &ThreadLocalPoolConfig) -> Result<NonNull<u8>> {
+    ///
+    /// `Ok(None)` means the cache cannot serve the request: the caller has to use the global
+    /// pool (after it has released its borrow of the thread-local cache).
+    fn allocate(&mut self, size: usize, config: &ThreadLocalPoolConfig) -> Result<Option<NonNull<u8>>> {
         // Try size class free list first
         let mut size = size;
         if let Some(list_index) = self.size_to_list_index(size) {
@@ -229,7 +232,7 @@ impl ThreadLocalCache {
                 if let Some(stats) = &self.stats {
                     stats.cache_hits.fetch_add(1, Ordering::Relaxed);
                 }
-                return Ok(ptr);
+                return Ok(Some(ptr));
             }
             // Blocks of one class are interchangeable once freed: carve the full class size
             size = TLS_SIZE_CLASSES[list_index];
@@ -241,7 +244,7 @@ impl ThreadLocalCache {
                 if let Some(stats) = &self.stats {
                     stats.hot_allocations.fetch_add(1, Ordering::Relaxed);
                 }
-                return Ok(ptr);
+                return Ok(Some(ptr));
             }
         }
 
@@ -274,7 +277,7 @@ impl ThreadLocalCache {
     }
 
     /// Allocate new hot area or fall back to global pool
-    fn allocate_new_area_or_fallback(&mut self, size: usize, config: &ThreadLocalPoolConfig) -> Result<NonNull<u8>> {
+    fn allocate_new_area_or_fallback(&mut self, size: usize, config: &ThreadLocalPoolConfig) -> Result<Option<NonNull<u8>>> {
         // If size is too large for hot area, use global pool directly
         if size > config.arena_size / 4 {
             return self.allocate_from_global(size);
@@ -294,7 +297,7 @@ impl ThreadLocalCache {
                         stats.hot_allocations.fetch_add(1, Ordering::Relaxed);
                     }
                     
-                    return Ok(ptr);
+                    return Ok(Some(ptr));
                 }
                 
                 // Hot area too small for request
@@ -307,21 +310,17 @@ impl ThreadLocalCache {
         }
     }
 
-    /// Allocate from global pool (cache miss)
-    fn allocate_from_global(&self, size: usize) -> Result<NonNull<u8>> {
+    /// Hand the request over to the global pool (cache miss)
+    ///
+    /// The global pool cannot be entered from here: this cache is mutably borrowed for the
+    /// duration of the call, so the calling `ThreadLocalMemoryPool::allocate` completes the
+    /// request once the borrow is released.
+    fn allocate_from_global(&self, _size: usize) -> Result<Option<NonNull<u8>>> {
         if let Some(stats) = &self.stats {
             stats.cache_misses.fetch_add(1, Ordering::Relaxed);
         }
 
-        if let Some(global_pool) = self.global_pool.upgrade() {
-            // Use the regular allocate method since we don't have bypass_cache
-            global_pool.allocate(size).and_then(|alloc| {
-                NonNull::new(alloc.as_ptr())
-                    .ok_or_else(|| ZiporaError::out_of_memory(size))
-            })
-        } else {
-            Err(ZiporaError::invalid_data("Global pool unavailable"))
-        }
+        Ok(None)
     }
 
     /// Deallocate to global pool
@@ -403,7 +402,7 @@ impl ThreadLocalMemoryPool {
         }
 
         // Get or create thread-local cache
-        let ptr = CURRENT_CACHE.with(|cache_cell| {
+        let cached = CURRENT_CACHE.with(|cache_cell| {
             let mut cache_opt = cache_cell.borrow_mut();
             
             // Initialize cache if needed
@@ -420,7 +419,13 @@ impl ThreadLocalMemoryPool {
             }
         })?;
 
-        Ok(ThreadLocalAllocation::new(ptr, size, Arc::clone(self)))
+        // The cache is no longer borrowed here
+        let (ptr, backing) = match cached {
+            Some(ptr) => (ptr, Backing::Cache),
+            None => self.allocate_bypass_cache(size)?,
+        };
+
+        Ok(ThreadLocalAllocation::new(ptr, size, backing, Arc::clone(self)))
     }
 
     /// Deallocate memory using thread-local cache
@@ -438,18 +443,27 @@ impl ThreadLocalMemoryPool {
     }
 
     /// Allocate bypassing thread-local cache
-    fn allocate_bypass_cache(&self, size: usize) -> Result<NonNull<u8>> {
+    ///
+    /// The returned `Backing` owns the block and has to be kept for as long as it is in use.
+    fn allocate_bypass_cache(&self, size: usize) -> Result<(NonNull<u8>, Backing)> {
         if let Some(ref global_pool) = self.global_pool {
+            // The secure pool hands out chunks of one fixed size
+            if size > global_pool.config().chunk_size {
+                return Err(ZiporaError::out_of_memory(size));
+            }
             let secure_ptr = global_pool.allocate()?;
-            NonNull::new(secure_ptr.as_ptr())
-                .ok_or_else(|| ZiporaError::out_of_memory(size))
+            let ptr = secure_ptr
+                .as_non_null()
+                .ok_or_else(|| ZiporaError::out_of_memory(size))?;
+            Ok((ptr, Backing::Secure(secure_ptr)))
         } else {
             // Fall back to system allocation
             let layout = Layout::from_size_align(size, 8)
                 .map_err(|e| ZiporaError::invalid_data(&format!("Invalid layout: {}", e)))?;
             
-            NonNull::new(unsafe { alloc(layout) })
-                .ok_or_else(|| ZiporaError::out_of_memory(size))
+            let ptr = NonNull::new(unsafe { alloc(layout) })
+                .ok_or_else(|| ZiporaError::out_of_memory(size))?;
+            Ok((ptr, Backing::System(layout)))
         }
     }
 
@@ -493,17 +507,28 @@ impl ThreadLocalMemoryPool {
     }
 }
 
+/// Owner of the memory behind a `ThreadLocalAllocation`
+enum Backing {
+    /// Carved from a thread-local arena: goes back to the thread-local cache
+    Cache,
+    /// Block from the system allocator (global fallback without secure memory)
+    System(Layout),
+    /// Chunk of the global secure pool: the guard returns it when dropped
+    Secure(#[allow(dead_code)] SecurePooledPtr),
+}
+
 /// RAII wrapper for thread-local pool allocations
 pub struct ThreadLocalAllocation {
     ptr: NonNull<u8>,
     size: usize,
+    backing: Backing,
     pool: Arc<ThreadLocalMemoryPool>,
 }
 
 impl ThreadLocalAllocation {
     /// Create new allocation wrapper
-    fn new(ptr: NonNull<u8>, size: usize, pool: Arc<ThreadLocalMemoryPool>) -> Self {
-        Self { ptr, size, pool }
+    fn new(ptr: NonNull<u8>, size: usize, backing: Backing, pool: Arc<ThreadLocalMemoryPool>) -> Self {
+        Self { ptr, size, backing, pool }
     }
 
     /// Get pointer to allocated memory
@@ -529,8 +554,16 @@ impl ThreadLocalAllocation {
 
 impl Drop for ThreadLocalAllocation {
     fn drop(&mut self) {
-        if let Err(e) = self.pool.deallocate(self.ptr, self.size) {
-            log::error!("Failed to deallocate thread-local memory: {}", e);
+        match self.backing {
+            Backing::Cache => {
+                if let Err(e) = self.pool.deallocate(self.ptr, self.size) {
+                    log::error!("Failed to deallocate thread-local memory: {}", e);
+                }
+            }
+            // SAFETY: the block was allocated with exactly this layout in allocate_bypass_cache
+            Backing::System(layout) => unsafe { dealloc(self.ptr.as_ptr(), layout) },
+            // The secure pool guard is a field: it releases the chunk right after this
+            Backing::Secure(_) => {}
         }
     }
 }
